@@ -42,3 +42,11 @@ claim("C09",
       "Quotient-with-statistics configurations cross into sympy and are run with every table entry forked (pattern D).",
       "Trusted: CPython, CrossHair, z3, the reference semantics of a genuine union/product with statistic maps (~40 lines, validated on word counts).",
       "CrossHair symbolic execution (pattern T: symbolic term tables) + z3", "DESIGN.md 2/C09")
+claim("C10",
+      "Three solver-backed obligations: (a) the real shift arithmetic (product/union/reverse shifts, Quotient's parent shift) is "
+      "run on z3 integer terms and the algebraic read-bound claims are discharged as validity queries for unbounded minimum sizes, "
+      "arity<=4 (cross-checked on z3 4.8.12); (b) CrossHair closes all paths of the real utils.compositions against its contract; "
+      "(c) with minimum sizes as solver variables every request the real rule forms make to instrumented sub-term providers is "
+      "checked against n - declared shift.",
+      "Trusted: CPython, z3 (two versions), CrossHair; (a) treats compositions' contract as proved by (b); stub classes/strategies.",
+      "direct z3 validity queries on the real arithmetic + CrossHair symbolic execution", "DESIGN.md 2/C10")
